@@ -21,6 +21,7 @@ type Oblig struct {
 	Pos    token.Position
 	Cover  bool // must be SAT (vacuity check)
 	Canary bool // deliberately false clause: must be refuted (SAT); never assumed
+	NoAssume bool // obligation listed as a known finding (of any property): never assumed afterwards
 	Detail string
 	// result
 	Result string // unsat | sat | unknown | timeout | error
@@ -48,6 +49,22 @@ type Session struct {
 	Assumed  []string // clauses of this function that are assumed, not proved
 	usesQuant bool
 	ReplayStr *StrV // the input buffer (pre-state) for counterexample replay
+}
+
+// neverAssume: obligation names listed as known findings (all properties); a refuted clause must not
+// become a hypothesis of the obligations that follow it in the same function.
+var neverAssume = map[string]bool{}
+
+func loadNeverAssume() {
+	fs, err := loadFindings(verifDir() + "/known_findings.txt")
+	if err != nil {
+		return
+	}
+	for _, f := range fs {
+		if f.Kind == "finding" && f.Obligation != "" {
+			neverAssume[f.Obligation] = true
+		}
+	}
 }
 
 func NewSession(fn string) *Session {
@@ -127,6 +144,9 @@ func (s *Session) oblig(kind, label string, tags []string, reach, goal string, p
 			ob.Canary = true
 		}
 	}
+	if neverAssume[name] {
+		ob.NoAssume = true
+	}
 	ob.Index = len(s.Items)
 	s.Items = append(s.Items, Item{Ob: ob})
 	s.Obligs = append(s.Obligs, ob)
@@ -170,7 +190,7 @@ func (s *Session) script(want func(*Oblig) bool, timeoutMs int, cvc bool) (strin
 			}
 			order = append(order, ob)
 		}
-		if !ob.Cover && !ob.Canary {
+		if !ob.Cover && !ob.Canary && !ob.NoAssume {
 			b.WriteString("(assert " + implies(ob.Reach, ob.Goal) + ")\n")
 		}
 	}
@@ -201,7 +221,7 @@ func (s *Session) standalone(target *Oblig, cvc bool, model bool) string {
 			}
 			return b.String()
 		}
-		if !ob.Cover && !ob.Canary {
+		if !ob.Cover && !ob.Canary && !ob.NoAssume {
 			b.WriteString("(assert " + implies(ob.Reach, ob.Goal) + ")\n")
 		}
 	}
